@@ -32,21 +32,22 @@ def bernstein(s):
     return h
 
 
-def colliding(n, size, rng, seen):
-    """n distinct ASCII names with the same Bernstein hash modulo size"""
-    target = None
-    out = []
-    while len(out) < n:
-        s = "".join(rng.choice("abcdefghijklmnopqrstuvwxyz") for _ in range(rng.choice([2, 3, 4])))
-        if s in seen:
-            continue
-        k = bernstein(s) % size
-        if target is None:
-            target = k
-        if k == target:
-            out.append(s)
-            seen.add(s)
-    return out
+def colliding(nshort, nlong, size, rng):
+    """nshort 2-letter and nlong 4-letter ASCII names, all with the same Bernstein hash modulo size.  (The model gives every
+    short abstract name one byte length and every long one another: the concrete names of a class must be equally long.)"""
+    import itertools, string
+    buckets = {}
+    for a, b in itertools.product(string.ascii_lowercase, repeat=2):
+        buckets.setdefault(bernstein(a + b) % size, []).append(a + b)
+    good = [k for k, v in buckets.items() if len(v) >= max(1, nshort)]
+    target = rng.choice(good)
+    shorts = rng.sample(buckets[target], nshort)
+    longs = []
+    while len(longs) < nlong:
+        s = "".join(rng.choice(string.ascii_lowercase) for _ in range(4))
+        if bernstein(s) % size == target and s not in longs:
+            longs.append(s)
+    return shorts, longs
 
 
 def name_table(names, rng, family):
@@ -63,11 +64,14 @@ def name_table(names, rng, family):
             tab[n] = pool.get(n, n)
     elif family == "collide":
         shorts = [n for n in names if len(n) == 1 or n == "bbb"]
-        longs = [n for n in names if n not in shorts]
-        seen = set()
-        cs = colliding(len(names), 256, rng, seen)
-        cs.sort(key=len)
-        for n, c in zip(shorts + longs, cs):
+        longs = [n for n in names if n not in shorts and not n.startswith("_")]      # (_FillValue keeps its spelling)
+        for n in names:
+            if n.startswith("_"):
+                tab[n] = n
+        cs, cl = colliding(len(shorts), len(longs), 256, rng)
+        for n, c in zip(shorts, cs):
+            tab[n] = c
+        for n, c in zip(longs, cl):
             tab[n] = c
     else:
         raise ValueError(family)
